@@ -472,3 +472,47 @@ def interp_globals():
 
 def kdtree_globals():
     return {("verde.utils", "cKDTree"): StubKDTree}
+
+
+# ----------------------------------------------------------------------------
+# sklearn.metrics.check_scoring as used by verde.base.utils.score_estimator
+# ----------------------------------------------------------------------------
+SCORER_LOG = []
+
+
+def metric_formula(scoring, y_pred, y_true, w):
+    """closed forms of the two scorers verde documents (r2 and neg_mean_squared_error); any other
+    scorer is an uninterpreted function of (name, predictions, truth, weights) keyed syntactically"""
+    from .engine import SymNum
+
+    yp = list(np.ravel(y_pred))
+    yt = list(np.ravel(y_true))
+    n = len(yt)
+    ws = list(np.ravel(w)) if w is not None else [1] * n
+    sw = sum(ws)
+    if scoring in ("neg_mean_squared_error",):
+        return -(sum(wi * (a - b) * (a - b) for wi, a, b in zip(ws, yt, yp)) / sw)
+    if scoring in ("r2", None):
+        mean = sum(wi * a for wi, a in zip(ws, yt)) / sw
+        num = sum(wi * (a - b) * (a - b) for wi, a, b in zip(ws, yt, yp))
+        den = sum(wi * (a - mean) * (a - mean) for wi, a in zip(ws, yt))
+        return 1 - num / den
+    if any(isinstance(v, SymNum) for v in yp + yt + ws):
+        import hashlib
+
+        key = "|".join([str(scoring)] + [z3.simplify(T(v)).sexpr() for v in yp + yt + ws])
+        return SymReal(z3.Real("metric!%s" % hashlib.sha1(key.encode()).hexdigest()[:12]))
+    raise E.HarnessError("concrete metric %r not modelled" % (scoring,))
+
+
+def stub_check_scoring(estimator=None, scoring=None, **kw):
+    def scorer(est, X, y_true, sample_weight=None):
+        y_pred = est.predict(X)
+        SCORER_LOG.append({"scoring": scoring, "y_pred": y_pred, "y_true": y_true, "w": sample_weight})
+        return metric_formula(scoring, y_pred, y_true, sample_weight)
+
+    return scorer
+
+
+def scoring_globals():
+    return {("verde.base.utils", "check_scoring"): stub_check_scoring}
